@@ -101,11 +101,14 @@ class ApplicationFileScanner:
             files_to_parse.clear()
 
         # Different spellings of the same path (`a.md`, `./a.md`, `docs/../a.md`)
-        # select one file; keep the spelling that sorts first.
+        # select one file; keep the spelling that sorts first.  The directory part
+        # is resolved through the file system, not textually: if `docs` is a link to
+        # a directory elsewhere, `docs/../a.md` is not `a.md`.
         sorted_files_to_parse = []
         selected_paths: Set[str] = set()
         for next_file in sorted(files_to_parse):
-            absolute_path = os.path.abspath(next_file)
+            directory_part, file_part = os.path.split(next_file)
+            absolute_path = os.path.join(os.path.realpath(directory_part), file_part)
             if absolute_path not in selected_paths:
                 selected_paths.add(absolute_path)
                 sorted_files_to_parse.append(next_file)
